@@ -38,7 +38,7 @@ fn enc_decisions(d: &[u16]) -> String {
     d.iter().map(|x| x.to_string()).collect::<Vec<_>>().join(",")
 }
 
-fn report(prop: &str, seed: u64, scn: &Scenario, rf: &psim::reference::Ref, ex: &Exec, full: bool) -> (String, bool) {
+fn report(prop: &str, seed: u64, scn: &Scenario, rf: &psim::reference::Ref, ex: &Exec, full: bool) -> (String, bool, Vec<String>) {
     let v = oracle::check(prop, scn, rf, ex);
     let (verdict, keys, detail) = match &v {
         Verdict::Ok => ("ok", vec![], String::new()),
@@ -83,7 +83,7 @@ fn report(prop: &str, seed: u64, scn: &Scenario, rf: &psim::reference::Ref, ex: 
         ));
     }
     s.push('}');
-    (s, bad)
+    (s, bad, keys)
 }
 
 fn main() {
@@ -109,6 +109,7 @@ fn main() {
             let deadline = arg(&args, "--seconds").map(|s| std::time::Instant::now() + std::time::Duration::from_secs_f64(s.parse().unwrap()));
             let sample_every: u64 = arg(&args, "--sample-every").unwrap_or("0").parse().unwrap();
             let max_viol: u64 = arg(&args, "--max-violations").unwrap_or("20").parse().unwrap();
+            let ignore: Vec<String> = arg(&args, "--ignore-keys").map(|s| s.split(',').map(|x| x.to_string()).collect()).unwrap_or_default();
             let mut nviol = 0;
             for i in 0..count {
                 if let Some(d) = deadline {
@@ -125,7 +126,8 @@ fn main() {
                 let scn = generate(prop, seed);
                 let (rf, ex) = exec(&scn, None, false);
                 let full = sample_every > 0 && i % sample_every == 0;
-                let (line, bad) = report(prop, seed, &scn, &rf, &ex, full);
+                let (line, bad, keys) = report(prop, seed, &scn, &rf, &ex, full);
+                let bad = bad && !(keys.iter().all(|k| ignore.contains(k)) && !keys.is_empty());
                 let mut o = out.lock();
                 writeln!(o, "{}", line).unwrap();
                 o.flush().unwrap();
@@ -144,7 +146,7 @@ fn main() {
             let scn = Scenario::decode(arg(&args, "--scenario").expect("--scenario")).expect("scenario text");
             let dec = arg(&args, "--decisions").map(parse_decisions);
             let (rf, ex) = exec(&scn, dec, flag(&args, "--tolerant"));
-            let (line, _) = report(prop, scn.seed, &scn, &rf, &ex, true);
+            let (line, _, _) = report(prop, scn.seed, &scn, &rf, &ex, true);
             println!("{}", line);
             if flag(&args, "--log") {
                 for e in &ex.rec.log {
